@@ -117,6 +117,18 @@ def c04(chk):
             if s["ret"] in ("replaced", "rejected", "removed"):
                 chk.distinct.add(json.dumps(("replay", s["op"], s["ret"], s["origin"], len(s["post"]["listing"]))))
     spec_mutant(chk, "ap_no_lost_on_replace", "MC_Ap.tla", "MC_Ap_quick.cfg", [MUT_NO_LOST_ON_REPLACE], workers=4)
+    # (d) unbounded: ApProof abstracts the active set to stored / last event / closed; TLAPS proves its
+    # invariant for any number of peers and connections, TLC checks that MC_Ap refines it
+    # (PROPERTY RefinesApProof in MC_Ap*.cfg), and a proof mutant must fail
+    proved, nobl, tail = vlib.tlaps_prove("ApProofs.tla")
+    chk.parts.setdefault("proofs", []).append({"module": "ApProofs.tla", "theorem": "Spec => []Inv", "obligations": nobl, "proved": proved})
+    if not proved:
+        chk.tool_errors.append("TLAPS did not prove ApProofs.tla: " + " ".join(tail.split())[-400:])
+    mproved, _, _ = vlib.tlaps_prove("ApProofs.tla", edits=[("ApProof.tla", 'ok\' = (ok /\\ last[p] = "new")          \\* Lost after New, then New after Lost',
+                                                              'ok\' = (ok /\\ last[p] # "new")')])
+    chk.parts["proofs"].append({"module": "ApProofs.tla", "mutant": "replace_publishes_only_new", "refuted": not mproved})
+    if mproved:
+        chk.tool_errors.append("proof mutant replace_publishes_only_new was proved: the proof is vacuous")
     if not quick(chk):
         spec_mutant(chk, "remove_by_peer", "MC_Conn.tla", "MC_Conn_quick.cfg", [MUT_REMOVE_BY_PEER])
         spec_mutant(chk, "no_lost_on_replace", "MC_Conn.tla", "MC_Conn_quick.cfg", [MUT_NO_LOST_ON_REPLACE])
